@@ -3,7 +3,8 @@
 1. TLC, exhaustive (tla/lex): LitInt (the 6.4.4.1 ladder on 64-bit magnitudes, chibicc's shift
    thresholds refine it), LitStr (character constants, string literals, concatenation/widening;
    chibicc's char narrowing and two-pass join refine it), LitUtf (UTF-8/UTF-16 codecs and Annex D
-   over the code points; unicode.c's codec and tables refine them), LitPhase (phases 1-2).
+   over the code points; unicode.c's codec and tables refine them), LitPhase (phases 1-2), LitFlt
+   (floating constants whose value is exact: type by suffix, value scaled by 1024).
    Each has a wrong Variant that TLC must reject (sensitivity control).
 2. Generate -> replay: every literal TLC wrote is compiled by the chibicc of the tree under test
    into a program that prints value / sizeof / sign probe (integer and character constants, also
@@ -38,6 +39,10 @@ def render(i, c):
         return (b"static unsigned long g" + n + b" = " + s + b";\n"
                 b"static void f" + n + b"(void) { printf(\"R " + n + b" %lu %d %d %lu\\n\", (unsigned long)(" + s +
                 b"), (int)sizeof(" + s + b"), (typeof(" + s + b"))-1 < 0, g" + n + b"); }\n")
+    if c["kind"] == "flt":
+        return (b"static double g" + n + b" = " + s + b";\n"
+                b"static void f" + n + b"(void) { printf(\"R " + n + b" %ld %d %ld\\n\", (long)((" + s +
+                b") * 1024), (int)sizeof(" + s + b"), (long)(g" + n + b" * 1024)); }\n")
     if c["kind"] == "str":
         et = ELEM[c["pfx"]]
         return (b"static " + et + b" ga" + n + b"[] = " + s + b";\n"
@@ -60,6 +65,8 @@ def render(i, c):
 def expect(i, c):
     if c["kind"] in ("int", "chr"):
         return "R %d %s %d %d %s" % (i, c["val"], c["size"], c["neg"], c["val"])
+    if c["kind"] == "flt":
+        return "R %d %d %d %d" % (i, c["val"], c["size"], c["val"])
     if c["kind"] == "str":
         h = bytes(c["bytes"]).hex()
         return "R %d %d %d %s %s %s" % (i, c["size"], c["neg"], h, h, h)
@@ -78,7 +85,9 @@ def sig_of(c, exp, got):
     """classification = root-cause class: kind, prefix/base, item kinds, which observable differs"""
     e, g = exp.split(), (got or "").split()
     k = c["kind"]
-    if k in ("int", "chr"):
+    if k == "flt":
+        names = ["", "", "value", "size", "static-init-value"]
+    elif k in ("int", "chr"):
         names = ["", "", "value", "size", "sign", "static-init-value"]
     elif k == "str":
         names = ["", "", "size", "sign", "bytes", "static-array-bytes", "local-array-bytes"]
@@ -89,6 +98,8 @@ def sig_of(c, exp, got):
         if j >= len(g) or e[j] != g[j]:
             what = names[j] if j < len(names) else "field%d" % j
             break
+    if k == "flt":
+        return "flt:%s:%s:%s" % ("hex" if c["hex"] else "dec", bytes(c["suffix"]).decode().lower() or "none", what)
     if k == "int":
         return "int:base%d:%s:%s" % (c["base"], sufclass(c["suffix"]), what)
     if k == "chr":
@@ -225,6 +236,61 @@ def describe(c):
     return "%s %s" % (c["kind"], bytes(c["src"]).decode("utf-8", "replace")[:120])
 
 
+# ------------------------------------------------------------------ constraint violations, header types
+def run_diag(ctx, tree, cases):
+    """literals that violate a constraint of 6.4.3 / 6.4.4 (the complement of the generated domain as far as the
+    specification names it): the translator owes a diagnostic - a non-zero status or a message.  gcc must agree."""
+    d = ctx.tmp("diag")
+
+    def one(t):
+        i, c = t
+        f = "%s/d%d.c" % (d, i)
+        s = bytes(c["src"])
+        body = (b"unsigned long x = " + s + b";\n") if c.get("pfx") is None or s.rstrip()[-1:] == b"'" else \
+            (b"static " + ELEM[c["pfx"]] + b" x[] = " + s + b";\n")
+        open(f, "wb").write(body)
+        p = vt.run_limited([tree + "/chibicc", "-S", "-o", "/dev/null", f], timeout=30, mem_gb=2)
+        g = None
+        if p.returncode == 0 and not p.stderr.strip():
+            g = vt.sh(["gcc", "-std=gnu11", "-S", "-o", "/dev/null", f], timeout=30)
+            g = g.returncode != 0 or bool(g.stderr.strip())
+        return c, p.returncode, p.stderr, g, body
+    for c, rc, err, g, body in vt.pmap(one, list(enumerate(cases)), workers=8):
+        ctx.note_case("diag:" + bytes(c["src"]).hex())
+        if rc < 0:
+            ctx.report("diag:crash:" + c["cls"], "chibicc died (%s) on %s" % (rc, body.decode("utf-8", "replace").strip()), case=jsonable(c))
+        elif rc == 0 and not err.strip():
+            if not g:
+                ctx.oracle_disagreements += 1
+                continue
+            ctx.report("diag:undiagnosed:" + c["cls"], "constraint violation accepted without a diagnostic: %s" % body.decode("utf-8", "replace").strip(),
+                       case=jsonable(c))
+    ctx.cov["traces_validated_against_impl"] += len(cases)
+
+
+HDR_PROG = b"""#include <stddef.h>
+int printf(const char *, ...);
+int main(void) {
+  printf("R 0 %d %d %d %d\\n", (int)sizeof(wchar_t), (wchar_t)-1 < 0, (int)sizeof(L'a'), (typeof(L'a'))-1 < 0);
+  printf("R 1 %d %d\\n", (int)sizeof(L""[0]), (typeof(L""[0]))-1 < 0);
+  return 0;
+}
+"""
+
+
+def run_headers(ctx, tree):
+    """D19: <stddef.h>'s wchar_t is the type of L'x' and of the elements of L"..." (6.4.4.4p11, 6.4.5p6)"""
+    d = ctx.tmp("hdr")
+    open(d + "/h.c", "wb").write(HDR_PROG)
+    p = vt.run_limited([tree + "/chibicc", "-I" + tree + "/include", "-o", d + "/h.exe", d + "/h.c"], timeout=60)
+    out = vt.run_limited([d + "/h.exe"], timeout=20).stdout.split() if p.returncode == 0 else []
+    ctx.note_case("hdr:wchar_t")
+    if len(out) != 10 or out[2:4] != out[4:6] or out[2:4] != out[8:10] or out[2:4] != ["4", "1"]:
+        ctx.report("hdr:stddef:wchar_t", "wchar_t of the tree's <stddef.h> (size, signed) = %s but L'a' is %s and L\"\"[0] is %s (expected 4 1 everywhere)" % (out[2:4], out[4:6], out[8:10]),
+                   case=dict(kind="hdr", source=HDR_PROG.decode()))
+    ctx.cov["traces_validated_against_impl"] += 1
+
+
 # ------------------------------------------------------------------ TLC
 def tlc_gen(ctx, module, base_cfg, out, what, workers=3, **consts):
     cfg = ctx.cfg(AREA, base_cfg, **consts)
@@ -262,10 +328,11 @@ def run(ctx):
     tree = ctx.build()
     ctx.phase("build done")
     import c11_cp
-    outs = {k: os.path.join(ctx.scratch, k + ".ndjson") for k in ("int", "str", "utf")}
+    outs = {k: os.path.join(ctx.scratch, k + ".ndjson") for k in ("int", "str", "utf", "flt")}
     jobs = [
         lambda: tlc_gen(ctx, "LitInt", "LitInt.cfg", outs["int"], "convert_pp_int's ladder (Level I) differs from 6.4.4.1 (Level A)", Emit=True),
         lambda: tlc_gen(ctx, "LitStr", "LitStr.cfg", outs["str"], "character constant / string literal design differs from 6.4.4.4 / 6.4.5", Emit=True, Small=q),
+        lambda: tlc_gen(ctx, "LitFlt", "LitFlt.cfg", outs["flt"], "floating constant model is inconsistent", workers=2, Emit=True),
         lambda: c11_cp.tlc_utf(ctx, outs["utf"]),
         lambda: c11_cp.tlc_phase(ctx),
         lambda: (control(ctx, "LitInt", "LitInt.cfg", "skip-unsigned-hex"), control(ctx, "LitStr", "LitStr.cfg", "no-widen", Small=True, Fams='{"cat"}'),
@@ -285,6 +352,12 @@ def run(ctx):
 
     ints = vt.read_ndjson(outs["int"])
     strs = dedupe(vt.read_ndjson(outs["str"]))
+    flts = dedupe(vt.read_ndjson(outs["flt"]))
+    if len(flts) < 3000:
+        raise Infra("LitFlt wrote only %d cases" % len(flts))
+    diags = dedupe([c for c in ints + strs if c["kind"] == "diag"])
+    ints = [c for c in ints if c["kind"] == "int"]
+    strs = [c for c in strs if c["kind"] != "diag"]
     if len(ints) < 5000 or len(strs) < 3000:
         raise Infra("generators wrote only %d integer / %d character+string cases" % (len(ints), len(strs)))
     # quick: every escape form x prefix (character constants, one-item strings) is always replayed;
@@ -297,6 +370,11 @@ def run(ctx):
         ctx.sample(dict(kind=c["kind"], literal=bytes(c["src"]).decode("utf-8", "replace"), expected=expect(0, c)))
     compare(ctx, tree, sel_i, "int", nontrivial=lambda c: c["val"] not in ("0", "1"))
     compare(ctx, tree, sel_s, "chrstr", first=100000)
+    sel_f = vt.subsample(flts, ctx.seed, 4 if q else 1)
+    ctx.sample(dict(kind="flt", literal=bytes(sel_f[len(sel_f) // 2]["src"]).decode(), expected=expect(0, sel_f[len(sel_f) // 2])))
+    compare(ctx, tree, sel_f, "flt", first=400000, nontrivial=lambda c: c["val"] != 0)
+    run_diag(ctx, tree, diags)
+    run_headers(ctx, tree)
     ctx.phase("literal replay done")
     c11_cp.run_cp(ctx, tree, outs["utf"])
     ctx.phase("code points done")
@@ -310,7 +388,7 @@ def run(ctx):
     return ctx.finish(
         rule="case = one literal (or one run of code points in one literal / one identifier set) written by LitInt/LitStr/LitUtf.tla, compiled by the tree's chibicc and compared on value, sizeof, signedness and object bytes, or one code-point row replayed on unicode.c, or one re-encoding (line ends, BOM, splice position) of a program of such literals; distinct = distinct source text per replay mode; non-trivial = integer magnitude > 1, every other case",
         exhaustive=not q,
-        extra=dict(int_cases=len(ints), chrstr_cases=len(strs), int_replayed=len(sel_i), chrstr_replayed=len(sel_s)))
+        extra=dict(int_cases=len(ints), chrstr_cases=len(strs), flt_cases=len(flts), flt_replayed=len(sel_f), diag_cases=len(diags), int_replayed=len(sel_i), chrstr_replayed=len(sel_s)))
 
 
 def replay(ctx, path):
@@ -324,6 +402,10 @@ def replay(ctx, path):
     import c11_cp
     if c.get("kind") in ("uc", "ucbad"):
         c11_cp.replay_uc(ctx, tree, c)
+    elif c.get("kind") == "diag":
+        run_diag(ctx, tree, [c])
+    elif c.get("kind") == "hdr":
+        run_headers(ctx, tree)
     elif c.get("kind") == "neg-ident":
         c11_cp.replay_neg(ctx, tree, c)
     else:
